@@ -405,7 +405,11 @@ func emitRoute(c *Ctx, o routeOp) {
 		// the target is the first entry of a Go map iteration: repeat to see the set of roles
 		replicaHit := false
 		ans := ""
-		for k := 0; k < 48; k++ {
+		tries := 1
+		if !o.ro && o.nrep0+o.nrep1 > 0 {
+			tries = 32 // 2^-32 (or less) to see only primaries when replicas exist
+		}
+		for k := 0; k < tries; k++ {
 			a, items := runOne(o)
 			ans = a
 			for _, d := range items {
@@ -493,6 +497,11 @@ func runRoute(c *Ctx) {
 		return true
 	}
 	batches := [][]int{{0}, {1}, {0, 1}, {1, 0}, {0, 2}, {0, 1, 2}, {0, 1, 2, 3}, {2, 3}, {0, 0}, {0, 3}}
+	saMasks := []int{0, 1, 3, 5, 7, 15, 14}
+	if c.Tier != "thorough" {
+		batches = [][]int{{0}, {0, 1}, {1, 0}, {0, 1, 2}, {0, 1, 2, 3}, {0, 0}}
+		saMasks = []int{0, 1, 3, 7, 15}
+	}
 	// ---- standalone: exhaustive over replicas 0..3, selector results -2..n+2, predicate masks
 	for nrep := 0; nrep <= 3; nrep++ {
 		for _, pred := range []bool{true, false} {
@@ -520,8 +529,7 @@ func runRoute(c *Ctx) {
 							if api == "mcache" && !cacheable(bt) {
 								continue
 							}
-							masks := []int{0, 1, 3, 5, 7, 15, 14}
-							for _, mask := range masks {
+							for _, mask := range saMasks {
 								emitRoute(c, routeOp{mode: "sa", api: api, nrep: nrep, pred: pred, sel: sel, az: az, mask: mask, cmds: bt})
 							}
 						}
@@ -558,7 +566,10 @@ func runRoute(c *Ctx) {
 		cfgs = append(cfgs, ccfg{pred: true, rns: ip(k)}, ccfg{pred: true, rs: ip(k)})
 	}
 	cbatches := [][]int{{0}, {2}, {0, 1}, {0, 2}, {1, 2, 3}, {0, 1, 2, 3}, {4}, {0, 4}, {4, 1}, {0, 4, 1}, {4, 4}, {0, 2, 4}}
-	nreps := [][2]int{{0, 0}, {1, 0}, {1, 2}, {2, 1}, {3, 3}, {0, 2}}
+	nreps := [][2]int{{0, 0}, {1, 2}, {2, 1}, {3, 0}}
+	if c.Tier != "thorough" {
+		cbatches = [][]int{{0}, {0, 1}, {0, 2}, {0, 1, 2, 3}, {4}, {0, 4}, {0, 4, 1}, {0, 2, 4}}
+	}
 	if c.Tier == "thorough" {
 		nreps = nil
 		for a := 0; a <= 3; a++ {
@@ -589,6 +600,9 @@ func runRoute(c *Ctx) {
 						continue
 					}
 					masks := []int{0, 31, 5, 10, 17}
+					if c.Tier != "thorough" {
+						masks = []int{0, 31, 5, 18}
+					}
 					if !cf.pred {
 						masks = []int{0}
 					}
